@@ -222,3 +222,50 @@ Proof.
 Qed.
 Corollary parse_headers_never_out_of_fuel c ft https data : parse_headers c ft https data <> inr EOutOfFuel.
 Proof. unfold parse_headers. apply parse_headers_loop_fuel. lia. Qed.
+
+(* ---- the header list IS the list of field lines received (minus what the underscore policy withholds) --- *)
+Definition field_of_line (l : bytes) : header :=
+  match find_char 58 l with
+  | Some i => (upper_ascii (firstn i l), strip is_ows (skipn (S i) l))
+  | None => ([], [])
+  end.
+Definition kept (c : cfg) (ft : bool) (h : header) : bool :=
+  let fwd := if negb ft && fwd_trusted c then forwarder_headers c else [] in
+  negb (mem 95 (fst h)) || (bmem (fst h) fwd || bmem [42] fwd) || (header_map c =? 2).
+
+Theorem accepted_headers_are_the_lines : forall c ft fuel lines n seen https acc hs h,
+    permit_obsolete_folding c = false -> strip_header_spaces c = false ->
+    parse_headers_loop c ft fuel lines n seen https acc = inl (hs, h) ->
+    hs = rev acc ++ filter (kept c ft) (map field_of_line lines).
+Proof.
+  intros c ft. induction fuel as [|fuel IH]; intros lines n seen https acc hs h Hfold Hstrip H; [discriminate|].
+  cbn [parse_headers_loop] in H. destruct lines as [|curr rest]; [injection H as <- _; cbn; rewrite app_nil_r; reflexivity|].
+  destruct (eff_fields c <=? n); [discriminate|].
+  destruct (find_char 58 curr) as [[|i]|] eqn:Ef; [discriminate| |discriminate].
+  rewrite Hstrip in H. destruct (negb (is_token (firstn (S i) curr))); [discriminate|].
+  destruct (span_ws rest) as [conts rest'] eqn:Esp. rewrite Hfold in H. cbn [negb] in H. rewrite andb_true_r in H.
+  destruct conts as [|c0 conts]; [|discriminate]. cbn [andb] in H.
+  apply span_ws_nil in Esp as [-> _].
+  cbn [map join_sp flat_map] in H. rewrite app_nil_r in H.
+  destruct (existsb _ (strip is_ows (skipn (S (S i)) curr))); [discriminate|].
+  destruct ((0 <? eff_field_size c) && _); [discriminate|].
+  match type of H with context [match ?sr with inl _ => _ | inr _ => _ end] => destruct sr as [[seen' https']|e] end; [|discriminate].
+  set (name := upper_ascii (firstn (S i) curr)) in *. set (value := strip is_ows (skipn (S (S i)) curr)) in *.
+  set (fwd := if negb ft && fwd_trusted c then forwarder_headers c else []) in *.
+  assert (Hfl : field_of_line curr = (name, value)) by (unfold field_of_line; rewrite Ef; reflexivity).
+  assert (Hk : kept c ft (name, value) = (negb (mem 95 name) || (bmem name fwd || bmem [42] fwd) || (header_map c =? 2))) by reflexivity.
+  cbn [map filter]. rewrite Hfl, Hk.
+  destruct (mem 95 name) eqn:Eu; cbn [negb orb].
+  - destruct (bmem name fwd || bmem [42] fwd) eqn:Efw; cbn [orb].
+    + rewrite (IH _ _ _ _ _ _ _ Hfold Hstrip H). cbn [rev]. rewrite <- app_assoc. reflexivity.
+    + destruct (header_map c =? 2) eqn:E2'.
+      * rewrite (IH _ _ _ _ _ _ _ Hfold Hstrip H). cbn [rev]. rewrite <- app_assoc. reflexivity.
+      * destruct (header_map c =? 0); [|discriminate]. exact (IH _ _ _ _ _ _ _ Hfold Hstrip H).
+  - rewrite (IH _ _ _ _ _ _ _ Hfold Hstrip H). cbn [rev]. rewrite <- app_assoc. reflexivity.
+Qed.
+
+Corollary parse_headers_are_the_lines : forall c ft https data hs h,
+    permit_obsolete_folding c = false -> strip_header_spaces c = false ->
+    parse_headers c ft https data = inl (hs, h) ->
+    hs = filter (kept c ft) (map field_of_line (split_crlf data)).
+Proof. intros c ft https data hs h Hf Hs H. unfold parse_headers in H. apply (accepted_headers_are_the_lines _ _ _ _ _ _ _ _ _ _ Hf Hs H). Qed.
